@@ -159,6 +159,8 @@ def run(prop, tier, vseed):
         for a, f, c in pool.imap_unordered(work, tasks, chunksize=2):
             n += a
             failures.extend(f)
+            if len(failures) > 20000:
+                failures = report.compact(failures)
             classes |= c
     nstrings = sum(len(a) ** L for a, m, _ in cfg for L in range(m + 1)) * 3
     cov = {
